@@ -46,11 +46,13 @@ def _parser(db, chk):
     def hook(I, name, pos, kw, node):
         if name == "parse_trace_dict":
             return {"traceEvents": T.P("EVENTS"), "schemaVersion": T.P("M")}
-        if name.endswith("local_symbol_table.add_symbols"):
-            tables.append(("add", to_term(pos[0])))
-            return None
-        if name.endswith("local_symbol_table.get_sym_id_map"):
-            return T.P("LOCAL_ID_MAP")
+        if name.endswith(".add_symbols") or name.endswith(".get_sym_id_map"):
+            recv = I.eval(node.func.value)
+            if isinstance(recv, Obj) and recv.name.startswith("TraceSymbolTable#"):
+                if name.endswith(".add_symbols"):
+                    tables.append(("add", to_term(pos[0])))
+                    return None
+                return T.P("LOCAL_ID_MAP")
         return NotImplemented
 
     I = Interp(db, call_hook=hook, max_paths=4000)
